@@ -168,9 +168,9 @@ let eval fn args : string option =
       | "sm2", x :: y :: r -> (SigSM2 (z_of_hex x, z_of_hex y), r)
       | _ -> failwith "bad set_sig args" in
     Some (obs_outcome show_sig (set_signature_by_data zero sd (z_of_hex (List.hd rest))))
-  | "set_signature", [_; kind; a; b; sa; ha; msg; _] ->
+  | "set_signature", container :: _ :: kind :: a :: b :: sa :: ha :: msg :: _ :: rest ->
     (* the signer oracles return placeholders of the right shape: the observation leaves the
-       signature bytes out *)
+       signature bytes out.  [rest] = the signature fields the structure holds before the call *)
     let sk = match kind with
       | "rsa" -> PrivRSA (z_of_hex a, z_of_hex b, Z0)
       | "ecc" -> PrivECC (z_of_hex a, z_of_hex b, Z0)
@@ -180,14 +180,24 @@ let eval fn args : string option =
       | _ -> [] in
     let one = z_of_int 1 in
     let sign_ec _ _ _ _ = (one, one) in
-    let junk = { s_scheme = z_of_int 0x55; s_ver = z_of_int 0x55; s_keysize = z_of_int 0x5555; s_hashalg = Z0; s_data = [] } in
-    let ks0 = { ks_ver = z_of_int 0x55; ks_key = { k_alg = Z0; k_ver = z_of_int 0x55; k_size = Z0; k_data = [] }; ks_sig = junk } in
-    Some (obs_outcome (fun (ks : keysig) ->
-        String.concat " " [ "ok"; hex_of_z ks.ks_ver; hex_of_z ks.ks_key.k_alg; hex_of_z ks.ks_key.k_ver;
-                            hex_of_z ks.ks_key.k_size; hex_of_bytes ks.ks_key.k_data;
-                            hex_of_z ks.ks_sig.s_scheme; hex_of_z ks.ks_sig.s_ver; hex_of_z ks.ks_sig.s_keysize;
-                            hex_of_z ks.ks_sig.s_hashalg; hex_of_z (z_of_int (List.length ks.ks_sig.s_data)) ])
-        (ks_set_signature sign_rsa sign_ec ks0 (z_of_hex sa) (z_of_hex ha) sk (bytes_of_hex msg)))
+    let prior = sig_of (take 5 rest) in
+    let ks0 = { ks_ver = z_of_int 0x55;
+                ks_key = { k_alg = z_of_int 0x55; k_ver = z_of_int 0x55; k_size = z_of_int 0x5555;
+                           k_data = [z_of_int 1; z_of_int 2; z_of_int 3] };
+                ks_sig = prior } in
+    let show_s (g : sigrec) =
+      String.concat " " [ hex_of_z g.s_scheme; hex_of_z g.s_ver; hex_of_z g.s_keysize;
+                          hex_of_z g.s_hashalg; hex_of_z (z_of_int (List.length g.s_data)) ] in
+    let show_ks (ks : keysig) =
+      String.concat " " [ hex_of_z ks.ks_ver; hex_of_z ks.ks_key.k_alg; hex_of_z ks.ks_key.k_ver;
+                          hex_of_z ks.ks_key.k_size; hex_of_bytes ks.ks_key.k_data; show_s ks.ks_sig ] in
+    let sa = z_of_hex sa and ha = z_of_hex ha and msg = bytes_of_hex msg in
+    (match container with
+     | "sig" -> Some (obs_outcome (fun g -> "ok " ^ show_s g) (sig_set_signature sign_rsa sign_ec prior sa ha sk msg))
+     | "ks" | "bpm" -> Some (obs_outcome (fun ks -> "ok " ^ show_ks ks) (ks_set_signature sign_rsa sign_ec ks0 sa ha sk msg))
+     | "km" -> Some (obs_outcome (fun (ks, pkha) -> "ok " ^ show_ks ks ^ " " ^ hex_of_z pkha)
+                       (km_set_signature sign_rsa sign_ec ks0 sa ha sk msg))
+     | _ -> failwith "bad container")
   | "sig_data", [sc; d] ->
     let m = { s_scheme = z_of_hex sc; s_ver = Z0; s_keysize = Z0; s_hashalg = Z0; s_data = bytes_of_hex d } in
     Some (obs_outcome show_sigdata (signature_data m))
